@@ -659,32 +659,87 @@ Qed.
 
 (* ====== tie T, memory threading: the flatten methods of bitvector.Nodes == *)
 (* Arithmetic.flatten, Comparator.flatten, the ite branch of
-   Operator.flatten and the priming branch of Unary.flatten are translated
-   into [g_flatten] (dispatch on the class of the node, the caller's list
-   `mem` handed back, **kw opaque except kw.update(prime=True)); the methods
-   that are not translated (Var, Num, Bool, Binary) and the opaque branches
-   are the function parameter [ext_flatten].  For EVERY such function and
-   every arithmetic-scope tree on whose leaves it returns bits and leaves the
-   memory alone ([leaves_ok]): the translated methods compute the threading
-   model Thread.d_aflat / d_cmp_flat (Leibniz) ... *)
-From Omega Require Import L2Compile.Thread L2Compile.ThreadProofs.
-From OmegaGP Require Import BitvectorFlatBridge.
+   Operator.flatten, the priming branch of Unary.flatten AND the leaves
+   Num.flatten (int_to_twos_complement), Bool.flatten, Var.flatten
+   (var_to_twos_complement, _append_sign_bit, _is_bool_var; names without a
+   definition) are translated into [g_flatten] (dispatch on the class of the
+   node, the caller's list `mem` handed back, **kw = the record of prime, t,
+   defs).  What stays external: [ext_flatten] (Binary, the quantifier / LET /
+   connective branches of Operator, <<>>) and [def_flatten] (the branch of
+   Var.flatten that expands a definition, reached only when the name is in
+   defs).  [var_id] numbers the bit names; [defs_mem] is `name in defs`. *)
+From Omega Require Import L1Circuits.PyStr L2Compile.Thread L2Compile.ThreadProofs
+  L2Compile.Leaf L2Compile.LeafProofs.
+From OmegaGP Require Import BitvectorLeafBridge BitvectorFlatBridge.
+
+(* the leaves are the translated code *)
+Theorem C06_leaves_are_translated_code :
+  forall (defs : Type) defs_mem var_id ext_flatten def_flatten,
+  let flat := g_flatten defs defs_mem var_id ext_flatten def_flatten in
+  (forall s r, g_int_to_twos_complement s = Some r ->
+     exists z, py_int s = Some z /\ r = map bstr (int_to_twos_complement z)) /\
+  (forall fuel v mem kw r st, flat (S fuel) (PNode "Num" v []) mem kw = Some (r, st) ->
+     exists z, py_int v = Some z /\ r = RBits (map XC (int_to_twos_complement z)) /\ st = mem) /\
+  (forall fuel v mem kw,
+     (py_lower v = "true"%string ->
+        flat (S fuel) (PNode "Bool" v []) mem kw = Some (RStr (XC true), mem)) /\
+     (py_lower v = "false"%string ->
+        flat (S fuel) (PNode "Bool" v []) mem kw = Some (RStr (XC false), mem))) /\
+  (forall name t, g__is_bool_var name (Some t) = is_bool_var t name) /\
+  (forall name t, g_var_to_twos_complement name (Some t) =
+     match dict_get t name with Some h => var_names h | None => None end) /\
+  (forall fuel name mem kw t, k_t kw = Some t -> nodef defs defs_mem kw name = true ->
+     flat (S fuel) (PNode "Var" name []) mem kw =
+     match d_var_flatten var_id t name (py_truth (k_prime kw)) with
+     | Some r => Some (r, mem)
+     | None => None
+     end).
+Proof.
+  intros defs defs_mem var_id ext_flatten def_flatten flat. repeat apply conj.
+  - exact g_int_to_twos_complement_ok.
+  - apply num_flatten_is_model.
+  - apply bool_flatten_is_model.
+  - exact g__is_bool_var_eq.
+  - exact g_var_to_twos_complement_eq.
+  - apply var_flatten_is_model.
+Qed.
+
+(* the hypothesis on the leaves of an arithmetic-scope tree ([leaves_ok]:
+   flatten returns these bits and leaves the memory alone) holds for
+   numerals and for variables without a definition by the translated code,
+   and for a node of an untranslated class by assumption on ext_flatten *)
+Theorem C06_leaf_hypothesis_discharged :
+  forall (defs : Type) defs_mem var_id ext_flatten def_flatten,
+  (forall v z kw, py_int v = Some z ->
+     leaves_ok defs defs_mem var_id ext_flatten def_flatten
+       (ALeaf (PNode "Num" v []) (num_bits z)) kw) /\
+  (forall name t bits kw, k_t kw = Some t -> nodef defs defs_mem kw name = true ->
+     d_var_flatten var_id t name (py_truth (k_prime kw)) = Some (RBits bits) ->
+     leaves_ok defs defs_mem var_id ext_flatten def_flatten
+       (ALeaf (PNode "Var" name []) bits) kw) /\
+  (forall u bits kw, is_ext u = true ->
+     (forall mem, ext_flatten u (Some mem) kw = Some (RBits bits, Some mem)) ->
+     leaves_ok defs defs_mem var_id ext_flatten def_flatten (ALeaf u bits) kw).
+Proof.
+  intros. repeat apply conj.
+  - apply leaf_num.
+  - apply leaf_var.
+  - apply leaf_ext.
+Qed.
 
 Theorem C06_flatten_is_translated_code :
-  forall (kwargs : Type) (kw_set_prime : kwargs -> kwargs) ext_flatten,
-  (forall e fuel kw mem r st,
-     leaves_ok kwargs kw_set_prime ext_flatten e kw ->
-     g_flatten kwargs kw_set_prime ext_flatten fuel (node_of e) (Some mem) kw = Some (r, st) ->
+  forall (defs : Type) defs_mem var_id ext_flatten def_flatten,
+  let flat := g_flatten defs defs_mem var_id ext_flatten def_flatten in
+  let lok := leaves_ok defs defs_mem var_id ext_flatten def_flatten in
+  (forall e fuel kw mem r st, lok e kw ->
+     flat fuel (node_of e) (Some mem) kw = Some (r, st) ->
      r = RBits (fst (d_aflat e mem)) /\ st = Some (snd (d_aflat e mem))) /\
-  (forall op a b fuel kw r st,
-     leaves_ok kwargs kw_set_prime ext_flatten a kw ->
-     leaves_ok kwargs kw_set_prime ext_flatten b kw ->
-     g_flatten kwargs kw_set_prime ext_flatten fuel
-       (PNode "Comparator" op [node_of a; node_of b]) None kw = Some (r, st) ->
+  (forall op a b fuel kw r st, lok a kw -> lok b kw ->
+     flat fuel (PNode "Comparator" op [node_of a; node_of b]) None kw = Some (r, st) ->
      exists o, cmp_of_string op = Some o /\
        r = RBuf (FBuf (py_len (d_cmp_flat o a b)) (d_cmp_flat o a b)) /\ st = None).
 Proof.
-  intros kwargs kw_set_prime ext_flatten. split.
+  intros defs defs_mem var_id ext_flatten def_flatten flat lok. split.
   - apply flatten_is_threading_model.
   - apply comparator_flatten_is_model.
 Qed.
@@ -703,38 +758,145 @@ Proof. exact thread_sound. Qed.
 (* and the buffer that the translated Comparator.flatten returns evaluates
    to the comparison of the integers denoted by the operand bits *)
 Theorem C06_translated_comparator_flatten_correct :
-  forall (kwargs : Type) (kw_set_prime : kwargs -> kwargs) ext_flatten vars
+  forall (defs : Type) defs_mem var_id ext_flatten def_flatten vars
          op a b fuel kw r st,
-  leaves_ok kwargs kw_set_prime ext_flatten a kw ->
-  leaves_ok kwargs kw_set_prime ext_flatten b kw ->
+  leaves_ok defs defs_mem var_id ext_flatten def_flatten a kw ->
+  leaves_ok defs defs_mem var_id ext_flatten def_flatten b kw ->
   awf a = true -> awf b = true ->
-  g_flatten kwargs kw_set_prime ext_flatten fuel
+  g_flatten defs defs_mem var_id ext_flatten def_flatten fuel
     (PNode "Comparator" op [node_of a; node_of b]) None kw = Some (r, st) ->
   exists o buf, cmp_of_string op = Some o /\ r = RBuf buf /\ st = None /\
     buf_value vars buf = Some (sem_cmp o (sval (aval vars a)) (sval (aval vars b))).
 Proof. exact translated_comparator_flatten_correct. Qed.
 
 Theorem C06_translated_flatten_threads_memory :
-  forall (kwargs : Type) (kw_set_prime : kwargs -> kwargs) ext_flatten vars
+  forall (defs : Type) defs_mem var_id ext_flatten def_flatten vars
          e fuel kw mem r st,
-  leaves_ok kwargs kw_set_prime ext_flatten e kw -> awf e = true ->
-  g_flatten kwargs kw_set_prime ext_flatten fuel (node_of e) (Some mem) kw = Some (r, st) ->
+  leaves_ok defs defs_mem var_id ext_flatten def_flatten e kw -> awf e = true ->
+  g_flatten defs defs_mem var_id ext_flatten def_flatten fuel (node_of e) (Some mem) kw
+    = Some (r, st) ->
   exists bits mem', r = RBits bits /\ st = Some mem' /\
     (exists k, extends (run vars [] mem) (run vars [] mem') k) /\
     Forall2 (stable vars (run vars [] mem')) bits (aval vars e).
 Proof. exact translated_flatten_threads_memory. Qed.
 
-(* non-vacuity: ite(b, x, y') * (x / 1) <= y over 2-bit variables with a
-   concrete environment for Var / Num: the hypotheses hold and the
-   translated methods return a buffer *)
-Example C06_translated_flatten_nonvacuous :
-  leaves_ok bool (fun _ => true) ex_ext ex_lhs false /\
-  leaves_ok bool (fun _ => true) ex_ext ex_rhs false /\
-  awf ex_lhs = true /\ awf ex_rhs = true /\
-  exists buf, g_flatten bool (fun _ => true) ex_ext 60
-    (PNode "Comparator" "<=" [node_of ex_lhs; node_of ex_rhs]) None false
-    = Some (RBuf buf, None).
-Proof. exact translated_flatten_nonvacuous. Qed.
+(* END TO END for quantifier-free arithmetic comparisons over declared
+   integer variables and numerals (Leaf.qexp: numerals, variables, X / ',
+   + - * / %): no hypothesis on any flatten function is left.  t = the symbol
+   table passed as t=..., no definitions in scope; [env n p] = the integer
+   value of variable n (primed if p); the bit assignment [vars] encodes env
+   ([encodes]: the bits that the table assigns to each variable evaluate, in
+   two's complement, to its value).  If neither side divides by zero, the
+   buffer returned by the TRANSLATED Comparator.flatten, evaluated as
+   symbolic/bdd.py does, is the integer comparison. *)
+Theorem C06_translated_flatten_end_to_end :
+  forall (defs : Type) defs_mem var_id ext_flatten def_flatten vars t env
+         op l r la ra fuel kw res st vl vr,
+  k_t kw = Some t -> k_defs kw = None ->
+  encodes var_id vars t env ->
+  q_anode var_id t (py_truth (k_prime kw)) l = Some la ->
+  q_anode var_id t (py_truth (k_prime kw)) r = Some ra ->
+  qval env (py_truth (k_prime kw)) l = Some vl ->
+  qval env (py_truth (k_prime kw)) r = Some vr ->
+  g_flatten defs defs_mem var_id ext_flatten def_flatten fuel
+    (PNode "Comparator" op [qnode l; qnode r]) None kw = Some (res, st) ->
+  exists o buf, cmp_of_string op = Some o /\ res = RBuf buf /\ st = None /\
+    buf_value vars buf = Some (sem_cmp o vl vr).
+Proof. exact translated_flatten_end_to_end. Qed.
+
+(* non-vacuity: x in -2..1 (signed, bits x_0 x_1), y in 0..3 (bits y_0 y_1,
+   constant sign bit); the formula  x' * (y + 3) <= 7  at x' = -2, y = 1:
+   the hypotheses hold, the translated methods return a buffer, and its
+   value is the comparison -8 <= 7 *)
+Definition ex_t : PyStr.table :=
+  [("x"%string, mkHint "int" (Some ["x_0"; "x_1"]%string) (Some true) (Some (-2, 1)));
+   ("y"%string, mkHint "int" (Some ["y_0"; "y_1"]%string) (Some false) (Some (0, 3)))].
+Definition ex_id (s : string) : nat :=
+  if String.eqb s "x_0'" then 0 else if String.eqb s "x_1'" then 1
+  else if String.eqb s "y_0" then 2 else if String.eqb s "y_1" then 3 else 9.
+Definition ex_vars (v : nat) : bool := Nat.eqb v 1 || Nat.eqb v 2.
+Definition ex_env (n : string) (p : bool) : Z :=
+  if String.eqb n "x" then (if p then -2 else 0) else (if p then 0 else 1).
+Definition ex_l : qexp :=
+  QArith AMul "*" (QPrime "'" (QVar "x")) (QArith AAdd "+" (QVar "y") (QNum "3")).
+Definition ex_r : qexp := QNum "7".
+Definition ex_kw : kwargs unit := mkKw None (Some ex_t) None.
+
+Example C06_end_to_end_nonvacuous :
+  (exists la ra, q_anode ex_id ex_t false ex_l = Some la /\ q_anode ex_id ex_t false ex_r = Some ra) /\
+  qval ex_env false ex_l = Some (-8) /\ qval ex_env false ex_r = Some 7 /\
+  (exists buf, g_flatten unit (fun _ _ => false) ex_id (fun _ _ _ => None) (fun _ _ _ => None) 60
+     (PNode "Comparator" "<=" [qnode ex_l; qnode ex_r]) None ex_kw = Some (RBuf buf, None) /\
+     buf_value ex_vars buf = Some true) /\
+  sval (map (evalx ex_vars []) [XV 0; XV 1]) = ex_env "x" true /\
+  sval (map (evalx ex_vars []) [XV 2; XV 3; XC false]) = ex_env "y" false.
+Proof.
+  split; [|split; [|split; [|split; [|split]]]].
+  - vm_compute. eexists. eexists. split; reflexivity.
+  - vm_compute. reflexivity.
+  - vm_compute. reflexivity.
+  - vm_compute. eexists. split; reflexivity.
+  - vm_compute. reflexivity.
+  - vm_compute. reflexivity.
+Qed.
+
+(* END TO END for quantifier-free FORMULAS (Leaf.bexp: TRUE / FALSE, declared
+   Boolean variables, comparisons of integer terms, ~ /\ \/ => <=> ^): the
+   translated Binary.flatten and Unary.flatten apply the operator prefixes of
+   Nodes.opmap (regenerated as g_opmap) to the results of their operands;
+   the emitted Boolean-scope formula (buffers evaluated on their own memory,
+   as symbolic/bdd.py does) has the Boolean meaning of the formula.  Again no
+   hypothesis on ext_flatten / def_flatten. *)
+From OmegaGP Require Import BitvectorFormula.
+
+Theorem C06_connectives_are_translated_code :
+  forall (defs : Type) defs_mem var_id ext_flatten def_flatten,
+  let flat := g_flatten defs defs_mem var_id ext_flatten def_flatten in
+  (forall fuel op x y mem kw r st,
+     flat (S fuel) (PNode "Binary" op [x; y]) mem kw = Some (r, st) ->
+     op <> "=="%string -> op <> ".."%string -> op <> "\in"%string ->
+     exists rx sx ry opx px py p,
+       flat fuel x mem kw = Some (rx, sx) /\ flat fuel y sx kw = Some (ry, st) /\
+       dict_get g_opmap op = Some opx /\ px_of_fres rx = Some px /\ px_of_fres ry = Some py /\
+       py_apply_prefix opx [px; py] = Some p /\ r = RForm p) /\
+  (forall fuel op x mem kw r st,
+     flat (S fuel) (PNode "Unary" op [x]) mem kw = Some (r, st) ->
+     op <> "X"%string -> op <> "'"%string ->
+     exists rx opx px p,
+       flat fuel x mem kw = Some (rx, st) /\ dict_get g_opmap op = Some opx /\
+       px_of_fres rx = Some px /\ py_apply_prefix opx [px] = Some p /\ r = RForm p).
+Proof.
+  intros. split.
+  - apply binary_flatten_is_model.
+  - apply unary_flatten_is_model.
+Qed.
+
+Theorem C06_translated_formula_end_to_end :
+  forall (defs : Type) defs_mem var_id ext_flatten def_flatten vars t env benv
+         e fuel kw r st v,
+  k_t kw = Some t -> k_defs kw = None -> py_truth (k_prime kw) = false ->
+  encodes var_id vars t env -> encodes_bool var_id vars t benv -> bwf var_id t e ->
+  bsem env benv e = Some v ->
+  g_flatten defs defs_mem var_id ext_flatten def_flatten fuel (bnode e) None kw = Some (r, st) ->
+  st = None /\ exists p, px_of_fres r = Some p /\ eval_px vars p = Some v.
+Proof. exact translated_formula_end_to_end. Qed.
+
+(* non-vacuity:  (x' * (y + 3) <= 7) => ~ (y = 2 /\ FALSE)  over the table of
+   the previous example: the translated methods return a formula whose
+   value is TRUE *)
+Definition ex_f : bexp :=
+  BBin "=>" (BCmp "<=" ex_l ex_r)
+       (BNot "~" (BBin "/\" (BCmp "=" (QVar "y") (QNum "2")) (BConst "FALSE"))).
+Example C06_formula_nonvacuous :
+  bwf ex_id ex_t ex_f /\ bsem ex_env (fun _ => false) ex_f = Some true /\
+  exists p, g_flatten unit (fun _ _ => false) ex_id (fun _ _ _ => None) (fun _ _ _ => None) 60
+     (bnode ex_f) None ex_kw = Some (RForm p, None) /\ eval_px ex_vars p = Some true.
+Proof.
+  split; [|split].
+  - cbn [bwf ex_f]. repeat split; eexists; vm_compute; reflexivity.
+  - vm_compute. reflexivity.
+  - vm_compute. eexists. split; reflexivity.
+Qed.
 
 Print Assumptions C06_adder_exact.
 Print Assumptions C06_adder_modular.
@@ -772,7 +934,12 @@ Print Assumptions C06_translated_multiplier_correct.
 Print Assumptions C06_translated_divider_correct.
 Print Assumptions C06_translated_arithmetic_correct.
 Print Assumptions C06_translated_comparator_correct.
+Print Assumptions C06_leaves_are_translated_code.
+Print Assumptions C06_leaf_hypothesis_discharged.
 Print Assumptions C06_flatten_is_translated_code.
+Print Assumptions C06_translated_flatten_end_to_end.
+Print Assumptions C06_connectives_are_translated_code.
+Print Assumptions C06_translated_formula_end_to_end.
 Print Assumptions C06_memory_threading_sound.
 Print Assumptions C06_translated_comparator_flatten_correct.
 Print Assumptions C06_translated_flatten_threads_memory.
